@@ -1,5 +1,5 @@
 """property id -> suites, evidence rule, trusted base additions"""
-from suites import props_tree, prims, monitor, legacy
+from suites import props_tree, prims, monitor, legacy, c04
 
 RULE_TREE = ("random operation histories (weighted words over fit / refine / recluster / set_merge / setters / "
              "delete_internal_nodes / reset / malformed fit; feature counts 1..24, 63, 64, 65, 100, 256; prototype+noise, "
@@ -24,6 +24,12 @@ PROPS: dict = {
     "C01": {"suites": [props_tree.c01], "rule": RULE_TREE},
     "C02": {"suites": [props_tree.c02], "rule": RULE_TREE},
     "C03": {"suites": [props_tree.c03], "rule": RULE_TREE},
+    "C04": {"suites": [c04.suite_repr, c04.suite_pages],
+            "rule": "data sets x 5-10 random (representation, dtype, chunking) variants {packed,unpacked} x {ndarray,list,Path,str path} x 8 "
+                    "integer dtypes x 0-3 cuts, every variant compared with ONE model run and with each other; every 10th (5th) data set "
+                    "also in a fresh subprocess; S-PAGES: .npy files on both sides of 2 MiB of rows fitted by path with "
+                    "_madvise_dontneed wrapped; non-trivial = data set with a multi-member cluster / file with at least one release",
+            "proof_modules": ["BBProps.C04", "BBProofs.Chunking", "BBProofs.MemPages"]},
     "C07": {"suites": [props_tree.c07, legacy.suite_legacy], "rule": RULE_TREE + "; S-LEGACY: bblean vs _legacy.bb_uint8 vs "
             "_legacy.bb_int64 on 2048-bit inputs (radius, diameter, tolerance-legacy), non-trivial = case with a multi-member cluster"},
     "C08": {"suites": [props_tree.c08], "rule": RULE_TREE},
